@@ -146,7 +146,7 @@ thread_local! {
     static LAST_PANIC_LOC: std::cell::RefCell<String> = const { std::cell::RefCell::new(String::new()) };
 }
 
-fn install_quiet_hook() {
+pub fn install_quiet_hook() {
     std::panic::set_hook(Box::new(|info| {
         let loc = info
             .location()
